@@ -22,7 +22,7 @@ var c01Kinds = []struct{ fn, lookup, exec, ex string }{
 
 func runC01(c *Ctx, tier string) {
 	r := NewReport("C01", "other", tier, c)
-	r.Explanation = "Structural necessary-and-sufficient conditions for the shape of the result set, decided for every input: (1) result-loop: for each of executeCertificate/executeRevocationList/executeOcspResponse the decision table (loop unrolled twice, then cut) shows Results is a fresh map, the loop ranges over registry.<Kind>Lints().Lints(), and every iteration performs exactly: Execute(elem, o, registry.GetConfiguration()), res.LintMetadata = elem.LintMetadata, Results[elem.Name] = res, updateErrorStatePresent(res) — no branch can skip any of them, nothing but the index is carried between iterations (induction), and no other function in the module writes Results or the four flags; the three register siblings reject duplicate names before any update, so the name→result map is lossless, and the registry's read API (Lints, Names, ...) returns exactly the tables register fills (no stale copy). (2) non-nil: the status-flow analysis shows no registered Execute (377) nor the framework's can return nil. (3) seven-statuses: every status that can reach a returned result is one of the seven named constants — never Reserved (zero value, literal without Status), out-of-range, converted or computed; a zero-initialised status cell is accepted only if every path leaving it unwritten contradicts the lint's own CheckApplies table. (4) flags-table: the decision table of updateErrorStatePresent over Status ∈ {-1..8} sets exactly NoticesPresent/WarningsPresent/ErrorsPresent/FatalsPresent for Notice/Warn/Error/Fatal and nothing otherwise; flags are never reset. (5) entry points: Lint*Ex return nil only for a nil object, substitute the global registry for a nil one, run the matching execute* on a new ResultSet and stamp Version = the major version of the module path. (6) the certificate path's recover net. Does not decide termination of lint bodies ('no hang') nor panic-freedom of CRL/OCSP lints (C02)."
+	r.Explanation = "Structural necessary-and-sufficient conditions for the shape of the result set, decided for every input: (1) result-loop: for each of executeCertificate/executeRevocationList/executeOcspResponse the decision table (loop unrolled twice, then cut) shows Results is a fresh map, the loop ranges over registry.<Kind>Lints().Lints(), and every iteration performs exactly: Execute(elem, o, registry.GetConfiguration()), res.LintMetadata = elem.LintMetadata, Results[elem.Name] = res, updateErrorStatePresent(res) — no branch can skip any of them, nothing but the index is carried between iterations (induction), and no other function in the module writes Results or the four flags; the three register siblings reject duplicate names before any update, so the name→result map is lossless, and the registry's read API (Lints, Names, ...) returns exactly the tables register fills (no stale copy). (2) non-nil: the status-flow analysis shows no registered Execute (377) nor the framework's can return nil. (3) seven-statuses: every status that can reach a returned result is one of the seven named constants — never Reserved (zero value, literal without Status), out-of-range, converted or computed; a zero-initialised status cell is accepted only if every path leaving it unwritten contradicts the lint's own CheckApplies table. (4) flags-table: the decision table of updateErrorStatePresent over Status ∈ {-1..8} sets exactly NoticesPresent/WarningsPresent/ErrorsPresent/FatalsPresent for Notice/Warn/Error/Fatal and nothing otherwise; flags are never reset. (5) entry points: Lint*Ex return nil only for a nil object, substitute the global registry for a nil one, run the matching execute* on a new ResultSet and stamp Version = the major version of the module path. (6) the certificate path's recover net. (7) loop-bounded ('no hang'): every natural loop (346) and every static call cycle in packages zlint, lint, util and lints/* is bounded by a form re-checked on the SSA — a range iterator; a counter φ(init, i±c) with c ≥ 1 on every in-loop path and a test against a loop-invariant bound that dominates every back edge; a slice/string that every iteration replaces by a strict sub-slice of itself (constant cut, utf8.DecodeRune size, remainder of asn1.Unmarshal, the literal prefix the loop test just found) — or is one of five loops/cycles listed in ledger/termination.txt with a ranking argument and a machine re-checked witness (field consumed by the decoder with its error leaving the loop; configuration types acyclic). A loop of any other shape is a violation. Library callees are assumed to terminate. Does not decide panic-freedom of CRL/OCSP lints (C02)."
 	r.Rule("result-loop: every iteration stores exactly one result under the lint's own name with its metadata and updates the flags")
 	r.Rule("results-writers: only execute*/updateErrorStatePresent/Lint*Ex write ResultSet fields")
 	r.Rule("non-nil: no Execute returns nil")
@@ -30,8 +30,9 @@ func runC01(c *Ctx, tier string) {
 	r.Rule("flags-table: status → flag mapping exact")
 	r.Rule("entry-points: nil guards, registry default, Version = module major version")
 	r.Rule("recover-wrapper; register-duplicate-name")
+	r.Rule("loop-bounded: every loop / call cycle reachable in lint, util, lints/*, zlint has a recognised bound or a reviewed, witnessed ledger line")
 	r.Trusted = []string{"go/ssa", "Go map assignment semantics", "induction over the range loop (only the index is loop-carried — checked)"}
-	r.Assumptions = []string{"termination of lint bodies and of the registry accessors is not decided"}
+	r.Assumptions = []string{"library functions called from lint code terminate (regexp, asn1, idna, big.Int, strings …); termination of zlint's own loops is decided by the loop-bounded rule"}
 
 	c01Loops(c, r)
 	c01Writers(c, r)
@@ -42,6 +43,7 @@ func runC01(c *Ctx, tier string) {
 	c01Flags(c, r)
 	c01Entry(c, r)
 	recoverWrapper(c, r)
+	c01Termination(c, r)
 	r.Finish()
 }
 
